@@ -248,6 +248,59 @@ def large_batch_probe(chk):
     chk.extra.setdefault("strata", {})["large_batch_probe"] = n
 
 
+def adapter_replaced_probe(chk):
+    """"the adapter" is the one the enforcer holds NOW: after set_adapter(other) - a migration: the other store is given the
+    current policy by save_policy - every auto-saved change goes to the new adapter and none to the old one, whatever calls
+    were made before the switch (single, batch, update, filtered)"""
+    import itertools
+    import os
+    import tempfile
+    import casbin
+    n = 0
+    calls = {
+        "add": lambda e, i: e.add_policy(f"u{i}", "data1", "read"),
+        "adds": lambda e, i: e.add_policies([[f"v{i}", "data1", "read"], [f"v{i}", "data2", "read"]]),
+        "removes": lambda e, i: e.remove_policies([["alice", "data1", "read"]]) if i == 0 else e.remove_policies([[f"v{i - 1}", "data1", "read"]]),
+        "update": lambda e, i: e.update_policy(["bob", "data2", "write"], [f"bob{i}", "data2", "write"]) if i == 0 else e.add_policy(f"w{i}", "x", "y"),
+        "remove_filtered": lambda e, i: e.remove_filtered_policy(0, f"u{i - 1}") if i else e.remove_filtered_policy(0, "nobody"),
+    }
+    with tempfile.TemporaryDirectory(prefix="c09_") as d:
+        kind = mgmt.KINDS["acl"]
+        mp = os.path.join(d, "acl.conf")
+        with open(mp, "w") as f:
+            f.write(kind.model_text())
+        for before in itertools.product(sorted(calls), repeat=2):
+            for after in itertools.product(sorted(calls), repeat=2):
+                e = casbin.Enforcer(mp)
+                old = mgmt.RecAdapter([("p", ["alice", "data1", "read"]), ("p", ["bob", "data2", "write"])])
+                e.set_adapter(old)
+                e.load_policy()
+                for i, c in enumerate(before):
+                    calls[c](e, i)
+                new = mgmt.RecAdapter([])
+                e.set_adapter(new)
+                e.save_policy()
+                old.calls = []
+                res = []
+                for i, c in enumerate(after):
+                    try:
+                        res.append(calls[c](e, i + 2))
+                    except Exception as exc:  # noqa
+                        res.append("raise " + type(exc).__name__)
+                n += 1
+                chk.count(("adapter-replaced", before, after))
+                mem = sorted(map(tuple, e.get_policy()))
+                store = sorted(tuple(r) for pt, r in new.rows if pt == "p")
+                if old.calls or mem != store:
+                    chk.spec_fail(dict(stratum="adapter-replaced", calls_before_set_adapter=list(before), calls_after=list(after)),
+                                  dict(results=res, old_adapter_calls=[list(map(str, c)) for c in old.calls][:4], memory=mem, new_store=store),
+                                  "old adapter untouched; new adapter's rows = memory",
+                                  "after set_adapter the auto-saved changes did not (all) reach the adapter the enforcer holds")
+                    chk.extra.setdefault("strata", {})["adapter_replaced_probe"] = n
+                    return
+    chk.extra.setdefault("strata", {})["adapter_replaced_probe"] = n
+
+
 def reload_model_probe(chk):
     """auto-save is the USER's switch: with auto-save off the adapter is not written until save_policy - also after the
     model (and the policy) were reloaded in between.  Implementation-level SPEC on an enforcer built from a model file."""
@@ -293,6 +346,7 @@ def run(chk, n):
     odd_priority_probe(chk)
     after_update_filtered_probe(chk)
     large_batch_probe(chk)
+    adapter_replaced_probe(chk)
     for kn in ("acl", "rbac", "dom", "rbac_res", "prio"):
         cases = make_cases(rng, kn, n)
         by_kind = {}
@@ -542,6 +596,17 @@ def main():
     if chk.replay_file:
         import json
         c = (json.load(open(chk.replay_file)).get("case") or {})
+        if c.get("stratum") in ("adapter-replaced", "auto-save-off-across-reload"):
+            # cheap deterministic probes: re-run and report what they report
+            chk.spec_failures = []
+            (adapter_replaced_probe if c["stratum"] == "adapter-replaced" else reload_model_probe)(chk)
+            hit = [f for f in chk.spec_failures if f["case"].get("stratum") == c["stratum"]]
+            if hit:
+                print("replay:", json.dumps(hit[0])[:700])
+                print(f"VIOLATION property={PROP} replay={chk.replay_file}")
+                raise SystemExit(1)
+            print("replay passes: the probe reports nothing on this tree")
+            raise SystemExit(0)
         if c.get("store") == "verbatim":
             with verbatim_store():
                 if c.get("enforcer") == "AsyncEnforcer":
